@@ -1,8 +1,8 @@
 (** C07 - integer text and byte encodings round-trip and match the reference digits.
     ONLY statements pinned here; proofs live in Dashu.Int.Io*. *)
 From Dashu Require Import Base.Prelude Base.Words Int.IoSpec Int.IoModel Int.IoDigits Int.IoPrint Int.IoParse
-  Int.IoRadix Int.IoLayout Int.IoBytes Int.IoRound Int.IoPow2 Int.IoTop Int.IoChunks Int.IoBytesAsIs.
-From DashuGen Require Import Params.
+  Int.IoRadix Int.IoLayout Int.IoBytes Int.IoRound Int.IoPow2 Int.IoTop Int.IoChunks Int.IoBytesAsIs Int.IoWords Int.IoTablesProof Int.IoSwar.
+From DashuGen Require Import Params IoTables.
 Open Scope Z_scope.
 
 (** the specification digits are a positional representation of the value ... *)
@@ -194,3 +194,73 @@ Theorem C07_F03_refuted :
   body_asis_before_fix 64 16 [95; 95] = Ok 0 /\ body_asis 64 16 [95; 95] = Err E_NoDigits.
 Proof. exact body_asis_before_fix_refuted. Qed.
 Print Assumptions C07_F03_refuted.
+
+(** the word loops under the converters, on little-endian word lists of any word size >= 8 (even):
+    PreparedMedium::new / PreparedLarge::write_chunk = repeated div::fast_div_by_word_in_place (C02's model and
+    proof) + stripping of top zero words; parse_chunk = mul::mul_word_in_place_with_carry (C01's model and proof)
+    + push of the carry.  They return what the value-level models return; their panics (index underflow of the
+    unguarded strip loop, debug_assert!(buffer_len == 1), assert_eq!(buffer_len, 0), push beyond the capacity
+    Buffer::allocate(groups.len())) are modelled and unreachable *)
+Theorem C07_medium_words : forall w r, 8 <= w -> w mod 2 = 0 -> 2 <= r -> r < Bw w ->
+  forall buf, Words.wf w buf -> buf <> [] -> (topnz buf \/ buf = [0]) ->
+  prepared_medium_words w r buf = Ok (prepared_medium w r (Words.value w buf)).
+Proof. exact prepared_medium_words_total. Qed.
+Print Assumptions C07_medium_words.
+
+Theorem C07_write_chunk_words : forall w r, 8 <= w -> w mod 2 = 0 -> 2 <= r -> r < Bw w ->
+  forall buf, Words.wf w buf -> (topnz buf \/ buf = [0]) -> Words.value w buf < snd (radix_info w r) ^ fmt_chunk_len ->
+  write_chunk_words w r buf = Ok (write_chunk w r (Words.value w buf)).
+Proof. exact write_chunk_words_total. Qed.
+Print Assumptions C07_write_chunk_words.
+
+Theorem C07_parse_chunk_words : forall w r, 8 <= w -> w mod 2 = 0 -> 2 <= r -> r < Bw w -> forall s,
+  match parse_chunk_words w r s with
+  | Ok buf => Words.wf w buf /\ parse_chunk w r s = Ok (Words.value w buf)
+  | Err e => parse_chunk w r s = Err e
+  | _ => False
+  end.
+Proof. exact parse_chunk_words_total. Qed.
+Print Assumptions C07_parse_chunk_words.
+
+(** regenerated on every run from radix.rs / parse/mod.rs / math.rs / the converters / arch/generic/digits.rs
+    (coq/gen/IoTables.v): the hand-written models are the interpretation of the tables in the source *)
+Theorem C07_tables_digit : forall r c, digit_from_ascii r c = table_digit_from_ascii r c.
+Proof. exact digit_from_ascii_table. Qed.
+Print Assumptions C07_tables_digit.
+
+Theorem C07_tables_prefix : forall default s, strip_radix_prefix default s = table_radix_prefix gen_prefix_table default s.
+Proof. exact strip_radix_prefix_table. Qed.
+Print Assumptions C07_tables_prefix.
+
+Theorem C07_tables_consts :
+  (forall r, radix_valid r = (gen_min_radix <=? r) && (r <=? gen_max_radix)) /\
+  (forall upper d, digit_char upper d =
+     gen_swar_zero + d + (if d <? 2 ^ gen_swar_shift - gen_swar_bias then 0 else if upper then gen_case_upper else gen_case_lower)) /\
+  fmt_chunk_len = gen_fmt_chunk_len /\ parse_chunk_len = gen_parse_chunk_len /\
+  (forall w base, max_exp_in_word w base =
+     if base >? Z.ones (w / gen_max_exp_shortcut_div) then Ok (1, base)
+     else let exp := w / blen base in max_exp_loop w (Z.to_nat w) base exp (base ^ exp)).
+Proof. exact tables_consts. Qed.
+Print Assumptions C07_tables_consts.
+
+(** radix.rs MAX_WORD_DIGITS_NON_POW_2 / MAX_DWORD_DIGITS_NON_POW_2 (= max_exp_in_(d)word(3).0 + 1, constants read from
+    the source): the digit arrays of PreparedWord / PreparedDword hold the digits of every (double) word in every
+    radix >= 3, and every group zero-padded to digits_per_word - the start index never underflows *)
+Theorem C07_digit_buffers_fit : forall w, 0 < w -> w mod 2 = 0 -> 3 < Bw w ->
+  (forall r x, 3 <= r -> 0 <= x < Bw w -> len (digits_spec r x) <= max_word_digits w) /\
+  (forall r, 3 <= r -> r < Bw w -> fst (radix_info w r) < max_word_digits w) /\
+  (forall r x, 3 <= r -> 0 <= x < Bw w * Bw w -> len (digits_spec r x) <= max_dword_digits w).
+Proof. exact digit_buffers_fit. Qed.
+Print Assumptions C07_digit_buffers_fit.
+
+(** arch/generic/digits.rs digit_chunk_raw_to_ascii (SWAR: bias, shift, mask, multiply, add inside one word) is the
+    byte-wise digit -> character map of the specification, for every chunk length (word size) *)
+Theorem C07_swar_chunk : forall n (upper : bool) ds, length ds = n -> Forall (fun d => 0 <= d < 36) ds ->
+  swar_chunk n (if upper then gen_case_upper else gen_case_lower) ds = map (digit_char upper) ds.
+Proof. exact swar_chunk_digit_char. Qed.
+Print Assumptions C07_swar_chunk.
+
+Theorem C07_swar_chunk_no_letters : forall n ds, length ds = n -> Forall (fun d => 0 <= d < 10) ds ->
+  swar_chunk n 0 ds = map (digit_char false) ds.
+Proof. exact swar_chunk_no_letters. Qed.
+Print Assumptions C07_swar_chunk_no_letters.
